@@ -29,6 +29,7 @@ import (
 	"encoding/base64"
 	"encoding/json"
 	"fmt"
+	"runtime"
 	"sort"
 	"strings"
 	"sync"
@@ -122,6 +123,7 @@ func c08Store(n int, thorough bool) []*ketoapi.RelationTuple {
 		axID("Doc", "d1", "viewers", "u1"),
 		axSet("Doc", "d1", "viewers", "Group", "g1", "members"),
 		axID("Group", "g1", "members", "u2"),
+		axID("Doc", "d1", "viewers", "Group:g9#members"), // a subject ID that looks like a subject set
 	)
 	adv := c08Adv(thorough)
 	for i, s := range adv {
@@ -497,7 +499,11 @@ func c08Queries(thorough bool) []*ketoapi.RelationTuple {
 
 // ---- batches ---------------------------------------------------------------------------------
 
-var c08LetterNames = []string{"allowed-direct", "denied", "unknown-namespace", "no-subject", "subject-set", "allowed-at-depth-2", "unknown-subject-set-namespace", "empty-subject"}
+var c08LetterNames = []string{"allowed-direct", "denied", "unknown-namespace", "no-subject", "subject-set", "allowed-at-depth-2", "unknown-subject-set-namespace", "empty-subject",
+	// look-alikes: a subject id spelled like a subject set - the string forms of 4/8 and of 9/10 are identical, the decisions differ
+	"id-spelled-like-stored-set", "set-not-stored", "stored-id-spelled-like-set"}
+
+const c08NLetters = 11
 
 // c08Letter returns the tuple of a letter. "no-subject": REST entry without
 // subject keys / gRPC tuple whose Subject message is ABSENT. "empty-subject":
@@ -518,6 +524,12 @@ func c08Letter(l int) *ketoapi.RelationTuple {
 		return axID("Doc", "d1", "viewers", "u2")
 	case 6:
 		return axSet("Doc", "d1", "viewers", "Unknown", "g1", "members")
+	case 8:
+		return axID("Doc", "d1", "viewers", "Group:g1#members")
+	case 9:
+		return axSet("Doc", "d1", "viewers", "Group", "g9", "members")
+	case 10:
+		return axID("Doc", "d1", "viewers", "Group:g9#members")
 	}
 	panic("c08: letter")
 }
@@ -558,20 +570,20 @@ func c08LetterStr(letters []int) string {
 	return "[" + strings.Join(p, ", ") + "]"
 }
 
-// c08Sequences: every sequence of length <= 3 over the 8 letters (585).
+// c08Sequences: every sequence of length <= 3 over the letters.
 func c08Sequences() [][]int {
 	out := [][]int{{}}
 	for n := 1; n <= 3; n++ {
 		total := 1
 		for i := 0; i < n; i++ {
-			total *= 8
+			total *= c08NLetters
 		}
 		for code := 0; code < total; code++ {
 			seq := make([]int, n)
 			c := code
 			for i := 0; i < n; i++ {
-				seq[i] = c % 8
-				c /= 8
+				seq[i] = c % c08NLetters
+				c /= c08NLetters
 			}
 			out = append(out, seq)
 		}
@@ -964,6 +976,51 @@ func TestC08(t *testing.T) {
 	}
 	wg.Wait()
 
+	// request order: every ordered pair of single-check requests (transport x tuple) issued back to
+	// back on one server; the SECOND answer must still agree with the engine - nothing a request
+	// decodes into may survive into the next request. One OS thread, so that per-P caches
+	// (sync.Pool) hand the same object to consecutive requests deterministically.
+	pairsDone := 0
+	if !timedOut.Load() {
+		prevProcs := runtime.GOMAXPROCS(1)
+		w := &c08Worker{t: t, thorough: thorough, srv: map[int]*apih.Server{}}
+		trs := c08Transports()
+		tuples := []*ketoapi.RelationTuple{c08Letter(0), c08Letter(1), c08Letter(4), c08Letter(5), c08Letter(8), c08Letter(9), c08Letter(10)}
+		d0 := depths[0]
+		for si := range states {
+			if si%3 != 1 {
+				continue // the states that hold store 1
+			}
+			s := w.server(states, si)
+			c := s.Client()
+			for t1 := range trs {
+				for x1 := range tuples {
+					for t2 := range trs {
+						for x2 := range tuples {
+							pairsDone++
+							bad := ""
+							for rep := 0; rep < 3; rep++ {
+								trs[t1].Do(c, tuples[x1], d0)
+								got := trs[t2].Do(c, tuples[x2], d0)
+								sig := c08Judge(trs[t2].Name, trs[t2].REST, d0, c08Oracle(s, tuples[x2], d0.Int), got)
+								if sig == "" {
+									bad = ""
+									break
+								}
+								bad = sig + " (got " + got.String() + ")"
+							}
+							if bad != "" {
+								run.Violation("after-previous-request:"+trs[t1].Name+"->"+trs[t2].Name, fmt.Sprintf("%s of %s right after %s of %s on %s: %s", trs[t2].Name, refsem.Key(tuples[x2]), trs[t1].Name, refsem.Key(tuples[x1]), states[si], bad),
+									map[string]any{"first": map[string]any{"transport": trs[t1].Name, "tuple": tuples[x1]}, "second": map[string]any{"transport": trs[t2].Name, "tuple": tuples[x2]}, "state": states[si]})
+							}
+						}
+					}
+				}
+			}
+		}
+		runtime.GOMAXPROCS(prevProcs)
+	}
+
 	// confirm (2 more runs), minimise batches, report the smallest instance per signature
 	sort.SliceStable(r.cands, func(i, j int) bool { return c08CaseSize(r.cands[i].Case) < c08CaseSize(r.cands[j].Case) })
 	w0 := &c08Worker{t: t, thorough: thorough, srv: map[int]*apih.Server{}}
@@ -1017,7 +1074,8 @@ func TestC08(t *testing.T) {
 		orc[k] = v
 	}
 	run.Finish(map[string]any{
-		"evaluations":          int(r.evals.Load()),
+		"evaluations":          int(r.evals.Load()) + pairsDone,
+		"request_order_pairs":  pairsDone,
 		"distinct_nontrivial":  len(r.nontriv),
 		"rule":                 "evaluation = one transport answer (or one batch entry) compared with the engine; non-trivial = distinct (state, tuple, max-depth) whose engine decision is allowed, depends on max-depth or is an engine error (unknown namespaces and plain denials are evaluated but not counted), plus distinct (state, transport, batch sequence, max-depth) of length >= 2 that mixes letters or repeats one, plus the max-size / max+1 cases",
 		"requests":             int(r.requests.Load()),
